@@ -692,6 +692,37 @@ func genTextmatch(repo string, args []string) (out string, err error) {
 		return "", err
 	}
 	t.files = []*ast.File{cf, mf}
+	// the exported entry point hands the pattern string to compile() as it is: a rewrite of the pattern TEXT in front of the
+	// parser (or another way into the package) is outside everything the theorems speak about
+	xf, err := parser.ParseFile(t.fset, dir+"textmatch.go", nil, 0)
+	if err != nil {
+		return "", err
+	}
+	entryOK := false
+	for _, d := range xf.Decls {
+		fd, ok := d.(*ast.FuncDecl)
+		if !ok {
+			continue
+		}
+		switch {
+		case fd.Recv == nil && fd.Name.Name == "Compile":
+			ps := fd.Type.Params.List
+			if len(ps) != 1 || len(ps[0].Names) != 1 || exprString(t.fset, ps[0].Type) != "string" {
+				return "", fmt.Errorf("textmatch.Compile: unexpected parameters")
+			}
+			if got := normStmt(t.fset, fd.Body); got != normText("{return compile("+ps[0].Names[0].Name+")}") {
+				return "", fmt.Errorf("textmatch.Compile has an unknown shape (expected: the pattern string goes to compile() unchanged): %s", got)
+			}
+			entryOK = true
+		case fd.Recv == nil && fd.Name.Name == "IsRegexp":
+			// a type test of a compiled pattern; builds nothing
+		default:
+			return "", fmt.Errorf("unknown function %s in textmatch.go", fd.Name.Name)
+		}
+	}
+	if !entryOK {
+		return "", fmt.Errorf("textmatch.Compile not found")
+	}
 	var sb strings.Builder
 	sb.WriteString("(* GENERATED by go2coq textmatch from ruleguard/textmatch/{compile.go,matchers.go} -- regenerated on every check. *)\n")
 	sb.WriteString("From Coq Require Import List ZArith Bool Arith.\nFrom RG.Base Require Import Outcome GoSlice.\nFrom RG.Regex Require Import Utf8 Regex FastPath GoOps.\nImport ListNotations.\nLocal Open Scope Z_scope.\n\n")
